@@ -63,7 +63,7 @@ pub fn run(seed: u64, n: usize, bin: &str, scratch: &str, driver: &str, out: &st
         let dir = root.join(format!("case{}", k));
         std::fs::create_dir_all(&dir).unwrap();
         // ---- files ----
-        let nfiles = match rng.below(4) { 0 => 1, 1 => 1, 2 => 2, _ => 3 };
+        let nfiles = if (1..=3).contains(&k) { 1 } else { match rng.below(4) { 0 => 1, 1 => 1, 2 => 2, _ => 3 } };
         let mut inputs: Vec<String> = vec![];
         let mut used: Vec<&str> = vec![];
         for _ in 0..nfiles {
@@ -74,7 +74,20 @@ pub fn run(seed: u64, n: usize, bin: &str, scratch: &str, driver: &str, out: &st
                 }
             };
             used.push(name);
-            let content: Vec<u8> = match rng.below(10) {
+            let content: Vec<u8> = match if k == 1 { 100 } else if k == 2 { 101 } else if k == 3 { 102 } else { rng.below(10) } {
+                // sizes around the library's limits: above the 500,000-byte prefix limit (whole-input strict decoding still
+                // applies), and above 1,000,000 bytes (lazy mode) -- legacy text, and ASCII that turns into legacy text
+                100 => { let n = 500_001 + rng.below(400_000); legacy_text(&mut rng, &corpus, n).0 }
+                101 => {
+                    let n = 500_000 + rng.below(150_000);
+                    let mut b = ascii_text(&mut rng, n);
+                    let n2 = 1_050_000 - b.len() + rng.below(100_000);
+                    // Cyrillic in windows-1251: its letters include bytes that several Latin code pages probed earlier do not define
+                    let tail = legacy_text_in(&mut rng, &corpus, n2, "windows-1251").0;
+                    b.extend_from_slice(&tail);
+                    b
+                }
+                102 => { let n = 1_000_001 + rng.below(100_000); legacy_text(&mut rng, &corpus, n).0 }
                 0 => vec![],
                 9 => {
                     // gb18030 with its 4-byte signature and mostly ASCII text: the UTF-8 form is SHORTER than the file
@@ -107,7 +120,8 @@ pub fn run(seed: u64, n: usize, bin: &str, scratch: &str, driver: &str, out: &st
             inputs.push(p.to_string_lossy().to_string());
         }
         // sometimes an input whose name is the sibling name of another input
-        if rng.chance(1, 9) {
+        let special = (1..=3).contains(&k);
+        if !special && rng.chance(1, 9) {
             let t: String = rng.pick(&corpus.texts).chars().take(300).collect();
             let ru = "\u{41f}\u{440}\u{438}\u{432}\u{435}\u{442}, \u{43c}\u{438}\u{440}! \u{42d}\u{442}\u{43e} \u{43f}\u{440}\u{43e}\u{441}\u{442}\u{43e}\u{439} \u{440}\u{443}\u{441}\u{441}\u{43a}\u{438}\u{439} \u{442}\u{435}\u{43a}\u{441}\u{442} \u{434}\u{43b}\u{44f} \u{43f}\u{440}\u{43e}\u{432}\u{435}\u{440}\u{43a}\u{438} \u{43a}\u{43e}\u{434}\u{438}\u{440}\u{43e}\u{432}\u{43a}\u{438}. ".repeat(4);
             let body = encode_text(&ru, "windows-1251").unwrap_or_default();
@@ -132,7 +146,7 @@ pub fn run(seed: u64, n: usize, bin: &str, scratch: &str, driver: &str, out: &st
         }
         // sometimes the sibling the tool is going to write already exists and is LONGER than what will be written
         // (an earlier run on a longer version of the input)
-        if rng.chance(1, 3) {
+        if !special && rng.chance(1, 3) {
             let s0 = NormalizerSettings::default();
             for p in inputs.clone() {
                 if let Ok(body) = std::fs::read(&p) {
@@ -151,7 +165,7 @@ pub fn run(seed: u64, n: usize, bin: &str, scratch: &str, driver: &str, out: &st
         }
         // sometimes a pre-existing sibling, a directory, or a missing input
         let mut missing = false;
-        match rng.below(8) {
+        match if special { 7 } else { rng.below(8) } {
             0 => {
                 std::fs::write(dir.join("a.windows-1251.txt"), b"existing sibling").unwrap();
             }
@@ -168,7 +182,7 @@ pub fn run(seed: u64, n: usize, bin: &str, scratch: &str, driver: &str, out: &st
             _ => {}
         }
         // ---- flags ----
-        let fl = match rng.below(10) {
+        let fl = match if k == 1 || k == 3 { 3 } else if k == 2 { 9 } else { rng.below(10) } {
             0 => Flags { normalize: false, replace: true, force: false, minimal: false, alternatives: false, threshold: None },
             1 => Flags { normalize: true, replace: false, force: true, minimal: false, alternatives: false, threshold: None },
             2 => Flags { normalize: false, replace: false, force: false, minimal: false, alternatives: false, threshold: Some(*rng.pick(&[1.5f32, -0.25, 2.0])) },
@@ -331,7 +345,18 @@ pub fn run(seed: u64, n: usize, bin: &str, scratch: &str, driver: &str, out: &st
             for p in &inputs {
                 let content = before.get(p).cloned().flatten().unwrap_or_default();
                 let lib = run_real(&content, &settings);
-                let best = match &lib { Outcome::Ok(ms) => ms.get_best().map(|b| (b.encoding().to_string(), b.decoded_payload().map(|t| t.to_string()))), _ => None };
+                // the text a normalised file must hold: the codec crate's own strict decode of the ORIGINAL bytes under the
+                // detected encoding, minus that encoding's mark (independent of what the library says it decoded)
+                let best = match &lib { Outcome::Ok(ms) => ms.get_best().map(|b| {
+                    let enc = b.encoding().to_string();
+                    let reference = encoding::label::encoding_from_whatwg_label(&enc)
+                        .and_then(|c| c.decode(crate::props::strip_mark(&content, &enc), encoding::DecoderTrap::Strict).ok());
+                    if reference.as_deref() != b.decoded_payload() && !enc.starts_with("utf") && fl.normalize {
+                        violations.push(json!({"prop": "C15", "what": format!("the text the library hands to the normaliser for {} ({}) is not the strict decode of the original ({} vs {:?} bytes)", p, enc,
+                            b.decoded_payload().map(|t| t.len()).unwrap_or(0), reference.as_ref().map(|t| t.len())), "known": null, "case": case.clone()}));
+                    }
+                    (enc, reference.or(b.decoded_payload().map(|t| t.to_string())))
+                }), _ => None };
                 if fl.normalize && !fl.replace {
                     // non-destructive: the input keeps its bytes unless its own path is some other input's sibling (known class D5)
                     if after.get(p) != before.get(p) {
